@@ -195,6 +195,43 @@ theorem annot_empty_ctab_unlabeled_witness (labels : List Int) (has5 : Bool) (na
 example : writeAnnot [-1] [] false [] true = .error .index :=
   annot_empty_ctab_unlabeled_witness [-1] false [] (by decide)
 
+/-- **`fill_ctab=True` ignores the last column.**  Two colour tables that agree in R, G, B, T produce the
+    same file bytes under `fill_ctab=True`, whatever their 5th columns hold (stale, zero, garbage) and
+    whether or not they have one — the docstring's "(n_labels, 5) - if the latter, the final column is
+    ignored".  Unconditional (no domain hypothesis; errors are equal too). -/
+theorem annot_fill_ignores_last_column (labels : List Int) (c1 c2 : List Row) (h51 h52 : Bool) (names : List Bytes)
+    (h : c1.map zeroA = c2.map zeroA) :
+    writeAnnot labels c1 h51 names true = writeAnnot labels c2 h52 names true :=
+  writeAnnot_fill_congr labels c1 c2 h51 h52 names h
+
+/-- non-vacuity: a 5-column table with a garbage last column and the 4-column table give the same file -/
+example : writeAnnot [1, -1, 0] [⟨10, 20, 30, 0, 999⟩, ⟨1, 2, 3, 255, -5⟩] true [[97], [98]] true
+    = writeAnnot [1, -1, 0] [⟨10, 20, 30, 0, 0⟩, ⟨1, 2, 3, 255, 0⟩] false [[97], [98]] true :=
+  annot_fill_ignores_last_column _ _ _ _ _ _ rfl
+
+/-- **Two-step history: read → recolour → write → read.**  Take any annotation of the domain, write and
+    read it, overwrite the colours `ctab[:, :3]` of the table that came back (its 5th column, still holding
+    the OLD packed values, is now stale) with any byte-valued, pairwise distinctly packed colours, write it
+    with `fill_ctab=True` and read again: the first read is as in `annot_roundtrip_general`, the second
+    returns the recoloured table with fresh packed values, the same names, and the labels (up to the
+    packed-to-0 format limit, now with respect to the NEW colours). -/
+theorem annot_recolour_chain (labels : List Int) (ctab : List Row) (has5 : Bool) (names : List Bytes) (fill : Bool)
+    (ok : AnnotDom labels ctab has5 names fill) (rgb : List (Int × Int × Int))
+    (hlen : rgb.length = ctab.length)
+    (hr : ∀ p ∈ rgb, 0 ≤ p.1 ∧ p.1 < 256 ∧ 0 ≤ p.2.1 ∧ p.2.1 < 256 ∧ 0 ≤ p.2.2 ∧ p.2.2 < 256)
+    (hd : (rgb.map fun p => packRgb p.1 p.2.1 p.2.2).Nodup) :
+    ∃ f2, annotChain labels ctab has5 names fill rgb true = .ok
+      (⟨labels.map (limitLabel (packs ctab)), withPacked ctab, names⟩, f2,
+       ⟨(labels.map (limitLabel (packs ctab))).map (limitLabel (packs (recolour (withPacked ctab) rgb))),
+         withPacked (recolour (withPacked ctab) rgb), names⟩) :=
+  annot_recolour_chain_aux labels ctab has5 names fill ok rgb hlen hr hd
+
+/-- non-vacuity: the example annotation, recoloured (one new colour equals an OLD colour of another row) -/
+example : ∃ f2, annotChain [2, -1, 0, 0] exCtab false exNames true [(255, 255, 255), (1, 0, 0), (10, 20, 30)] true = .ok
+      (⟨[2, -1, 0, 0], withPacked exCtab, exNames⟩, f2,
+       ⟨[2, -1, 0, 0], [⟨255, 255, 255, 0, 16777215⟩, ⟨1, 0, 0, 255, 1⟩, ⟨10, 20, 30, 1, 1971210⟩], exNames⟩) :=
+  annot_recolour_chain _ _ _ _ _ exAnnot_dom _ rfl (by decide) (by decide)
+
 /-! ## MGH: shape, zooms, footer offset, file round trip -/
 
 /-- **dims ↔ shape.**  For 1- to 4-D inputs (a 4th axis, when present, of length ≥ 2) the header's
@@ -310,12 +347,68 @@ example : readMgh (writeMgh ⟨⟨2, 1, 1, 2⟩, 4, [1065353216, 1073741824, 105
   mgh_file_roundtrip _ _ _ _ (by decide) (by decide) (by decide) (by decide) (by decide) (by decide) (by decide)
     (by decide) (by decide) (by decide) (by decide)
 
+/-- **MGH save → load, end to end.**  For every 1- to 4-D shape with positive extents (a 4th axis, when
+    present, of length ≥ 2), each of the four MGH dtypes, data fitting the type, any voxel sizes derived from
+    the affine, any 48 `Mdc`/`Pxyz_c` bytes, an optional `set_zooms` call with as many zooms as dimensions
+    (positive voxel sizes, non-negative TR) and any sequence of footer assignments, the whole pipeline
+    `MGHImage(...)` → `set_zooms` → footer assignments → `save` → `load` succeeds and the loaded image has:
+    the image shape (1-D/2-D padded to 3-D; 3-D stays 3-D, 4-D stays 4-D), the type code, the data, the
+    `Mdc`/`Pxyz_c` bytes, the footer = TR followed by the assignments in order (`ftrSpec`), and `get_zooms`
+    = voxel sizes (+ TR exactly for 4-D); the file written is `writeMgh` of those fields. -/
+theorem mgh_save_load_roundtrip (s : List Nat) (dt : String) (code bpv : Nat) (data aff : List Nat) (ras : Bytes)
+    (setZ : Option (List Nat)) (sets : List (Nat × Nat))
+    (hl : 1 ≤ s.length ∧ s.length ≤ 4) (h4 : ∀ a b c d, s = [a, b, c, d] → 2 ≤ d)
+    (hpos : ∀ n ∈ s, 0 < n ∧ n < 2147483648)
+    (hc : codeOfDtype dt = some code) (hb : bytesPerVox code = some bpv)
+    (haff : aff.length = 3) (haffv : ∀ v ∈ aff, v < 4294967296)
+    (hras : ras.length = 48)
+    (hdata : data.length = prod s) (hdat : ∀ v ∈ data, v < 256 ^ bpv)
+    (hz : ∀ zs, setZ = some zs → zs.length = (imgShape s).length ∧ (zs.take 3).any f32LeZero = false ∧
+            (∀ t, zs[3]? = some t → f32LtZero t = false) ∧ ∀ v ∈ zs, v < 4294967296)
+    (hsets : ∀ p ∈ sets, p.2 < 4294967296) :
+    ∃ d, setDataShape (imgShape s) = .ok d ∧
+    mghSaveLoad s dt data aff ras setZ sets = .ok
+      { hz := hzSpec setZ aff (imgShape s).length,
+        file := writeMgh ⟨d, code, aff, ftrSpec (trOf setZ) sets⟩ ras bpv data,
+        shape := imgShape s, code := code,
+        zooms := zoomsSpec aff (imgShape s).length ((ftrSpec (trOf setZ) sets).headD 0),
+        ftr := ftrSpec (trOf setZ) sets, data := data, ras := ras } := by
+  obtain ⟨d, hsd, hgs, hnd⟩ := mgh_shape_roundtrip s hl h4
+  exact ⟨d, hsd, mgh_save_load_aux s dt code bpv data aff ras setZ sets d hsd hgs hnd hpos hc hb haff haffv hras
+    hdata hdat hz hsets⟩
+
+/-- non-vacuity: a 2-D int16 image (padded to 3-D, so no TR in `get_zooms`) whose footer nevertheless gets
+    TR / TE assigned and keeps them, and a 4-D uint8 image with `set_zooms` incl. TR and a later `tr` assignment -/
+example : ∃ d, setDataShape (imgShape [2, 1]) = .ok d ∧
+    mghSaveLoad [2, 1] "i2" [1, 65535] [1065353216, 1073741824, 1056964608] (zeros 48) none [(0, 1075838976), (2, 7)] = .ok
+      { hz := [1065353216, 1073741824, 1056964608],
+        file := writeMgh ⟨d, 4, [1065353216, 1073741824, 1056964608], [1075838976, 0, 7, 0, 0]⟩ (zeros 48) 2 [1, 65535],
+        shape := [2, 1, 1], code := 4, zooms := [1065353216, 1073741824, 1056964608],
+        ftr := [1075838976, 0, 7, 0, 0], data := [1, 65535], ras := zeros 48 } :=
+  mgh_save_load_roundtrip [2, 1] "i2" 4 2 [1, 65535] [1065353216, 1073741824, 1056964608] (zeros 48) none
+    [(0, 1075838976), (2, 7)] (by decide) (by intro a b c d h; cases h) (by decide) (by decide) (by decide) rfl
+    (by decide) (by decide) rfl (by decide) (by intro zs h; cases h) (by decide)
+
+example : ∃ d, setDataShape (imgShape [1, 1, 1, 2]) = .ok d ∧
+    mghSaveLoad [1, 1, 1, 2] "u1" [9, 255] [1065353216, 1065353216, 1065353216] (zeros 48)
+      (some [1065353216, 1065353216, 1065353216, 1157234688]) [(0, 1075838976)] = .ok
+      { hz := [1065353216, 1065353216, 1065353216, 1157234688],
+        file := writeMgh ⟨d, 0, [1065353216, 1065353216, 1065353216], [1075838976, 0, 0, 0, 0]⟩ (zeros 48) 1 [9, 255],
+        shape := [1, 1, 1, 2], code := 0, zooms := [1065353216, 1065353216, 1065353216, 1075838976],
+        ftr := [1075838976, 0, 0, 0, 0], data := [9, 255], ras := zeros 48 } :=
+  mgh_save_load_roundtrip [1, 1, 1, 2] "u1" 0 1 [9, 255] [1065353216, 1065353216, 1065353216] (zeros 48)
+    (some [1065353216, 1065353216, 1065353216, 1157234688]) [(0, 1075838976)] (by decide)
+    (by intro a b c d h; cases h; decide) (by decide) (by decide) (by decide) rfl
+    (by decide) (by decide) rfl (by decide)
+    (by intro zs h; cases h; exact ⟨rfl, by decide, by intro t ht; cases ht; decide, by decide⟩) (by decide)
+
 /-! ## generated constants (re-checked against the source on every run) -/
 
 /-- the constants the model relies on, as extracted from the working tree: header/footer layouts tile
     their blocks with the offsets the model hard-codes, the data offset lies behind the header, the type
     table has widths 1/2/4 and distinct codes, the magic bytes the writers emit decode to the magic numbers
-    the readers test, the reader's volume-info keys are the writer's keys after `head`, in order. -/
+    the readers test, the reader's volume-info keys are the writer's keys after `head`, in order; the
+    `Mdc`/`Pxyz_c` defaults of a header without RAS information fill bytes 42..90. -/
 theorem gen_constants_consistent :
     tiles 0 hdrLayout hdrItemsize = true ∧ tiles 0 ftrLayout ftrItemsize = true ∧ hdrItemsize ≤ dataOffset ∧
     hdrLayout.map (fun e => (e.1, e.2.1)) =
@@ -327,6 +420,7 @@ theorem gen_constants_consistent :
     rdMagic3 geomMagicBytes = .ok (triangleMagic, []) ∧ rdMagic3 morphMagicBytes = .ok (morphMagic, []) ∧
     triangleMagic ≠ quadMagic ∧ triangleMagic ≠ newQuadMagic ∧
     volKeysW = [kHead, kValid, kFilename, kVolume, kVoxelsize, kXras, kYras, kZras, kCras] ∧
-    volKeysR = volKeysW.tail ∧ noFile.length + 1 < 2147483648 := by decide
+    volKeysR = volKeysW.tail ∧ noFile.length + 1 < 2147483648 ∧
+    defRasBytes.length + 42 = hdrItemsize ∧ defDeltaNoRas.length = 3 ∧ (∀ b ∈ defRasBytes, b < 256) := by decide
 
 end Nb.C19
